@@ -114,8 +114,23 @@ Record run_post (s : st) (n : nat) (ops : list op) (rs : list ores) (s' : st) (a
   rp_res : Forall2 res_ok ops rs;
   rp_ledger : filter (nzb (ending s)) (sentL atts ++ bids s') =
               filter (nzb (ending s)) (bids s ++ filter (fitg (cap s) (ending s)) (acked n ops rs));
-  rp_alone : sentA atts = filter (fun g => negb (fitg (cap s) (ending s) g)) (acked n ops rs)
+  rp_alone : sentA atts = filter (fun g => negb (fitg (cap s) (ending s) g)) (acked n ops rs);
+  (* an error result is the outcome of an underlying write made during that very operation *)
+  rp_err : forall i x, nth_error rs i = Some x ->
+           match x with
+           | OErr e => exists a, In a atts /\ a_op a = n + i /\ a_out a = WErr e
+           | OIntr => exists a, In a atts /\ a_op a = n + i /\ a_out a = WIntr
+           | _ => True
+           end;
+  (* an oversized metric goes out during its own emit *)
+  rp_own : Forall (fun a => forall g, In g (ok_alone a) -> a_op a = fst g) atts
 }.
+
+Lemma err_last_in atts o : err_last atts o -> exists a, In a atts /\ a_out a = o.
+Proof. intros (pre & a & E & O). exists a. split; [subst; apply in_or_app; right; left; reflexivity|exact O]. Qed.
+
+Lemma sentA_in a atts g : In a atts -> In g (ok_alone a) -> In g (sentA atts).
+Proof. intros Ha Hg. unfold sentA. apply in_flat_map. exists a. split; assumption. Qed.
 
 Lemma run_from_spec ops : forall s n rs s',
   Inv s -> run_from s n ops = (rs, s') -> exists atts, run_post s n ops rs s' atts.
@@ -124,12 +139,13 @@ Proof.
   - inversion H; subst. exists []. constructor; auto using same_cfg_refl.
     + now rewrite app_nil_r.
     + cbn. now rewrite app_nil_r.
+    + intros i x Hn. destruct i; discriminate.
   - destruct (step s n o) as [x s1] eqn:S1.
     destruct (run_from s1 (S n) ops) as [xs s2] eqn:R. inversion H; subst; clear H.
     destruct (step_spec _ _ _ _ _ I S1) as [a1 P1].
     destruct P1 as [I1 [C1 E1] [X1 O1] F1 R1 Er1 L1 A1 _ _ _].
     destruct (IH _ _ _ _ I1 R) as [a2 P2].
-    destruct P2 as [I2 [C2 E2] X2 O2 F2 Len2 R2 L2 A2].
+    destruct P2 as [I2 [C2 E2] X2 O2 F2 Len2 R2 L2 A2 Err2 Own2].
     rewrite C1, E1 in *.
     exists (a1 ++ a2). constructor.
     + exact I2.
@@ -146,4 +162,22 @@ Proof.
       rewrite app_assoc, (filter_app _ (sentL a1 ++ bids s1)), L1, <- filter_app.
       rewrite (filter_app _ (acked1 n o x)). now rewrite !app_assoc.
     + cbn [acked]. rewrite sentA_app, A1, A2, filter_app. reflexivity.
+    + intros i y Hn. destruct i as [|i]; cbn in Hn.
+      * inversion Hn; subst y. rewrite Nat.add_0_r.
+        assert (Hin : forall o', err_last a1 o' -> exists a, In a (a1 ++ a2) /\ a_op a = n /\ a_out a = o').
+        { intros o' El. destruct (err_last_in _ _ El) as (a & Ia & Oa). exists a.
+          split; [apply in_or_app; left; exact Ia|]. split; [|exact Oa].
+          rewrite Forall_forall in O1. now apply O1. }
+        destruct x; cbn in Er1; auto.
+      * specialize (Err2 i y Hn).
+        replace (n + S i) with (S n + i) by lia.
+        destruct y; auto; destruct Err2 as (a & Ia & Oa & Ua); exists a;
+          (split; [apply in_or_app; right; exact Ia|split; assumption]).
+    + apply Forall_app; split; [|exact Own2].
+      apply Forall_forall. intros a Ha g Hg.
+      pose proof (sentA_in _ _ _ Ha Hg) as Hs. rewrite A1 in Hs.
+      apply filter_In in Hs. destruct Hs as [Hs _].
+      rewrite Forall_forall in O1. rewrite (O1 a Ha).
+      unfold acked1 in Hs. destruct o; [|contradiction]. destruct x; try contradiction.
+      destruct Hs as [Hs|[]]. subst g. reflexivity.
 Qed.
